@@ -290,6 +290,19 @@ let rec run_case (kind : string) (body : sexp list) : string * string =
           | ZCall -> "call") seg in
       let r = String.concat " " (List.concat (List.map2 (fun a b -> show_one 0 a @ show_one 1 b @ ["|"]) m0 m1)) in
       (r, r)
+  | "finalize" when atom (List.nth body 1) = "iter" ->
+      (* (finalize FORM iter SHAPE (stims N [u])): from_iter(0..N) asks is_finished before every pull and completes after the loop;
+         what the subscriber and the callback see is what a create() source pushing 0..N-1 and the completion gives, without the
+         per-stimulus segments (an iterator leaves no room for markers between its items) *)
+      let sh = fshape_of false (List.nth body 2) in
+      let a = args (List.nth body 3) in
+      let n = int_of (List.hd a) in
+      let sts = List.init n (fun i -> ZSrc (Next (VZ (z_of_int i)))) @ [ZSrc Done] @ (if List.length a > 1 then [ZUnsub] else []) in
+      let flat = List.concat (run_finalize_segs_from true sh sts) in
+      let b = Buffer.create 64 in
+      List.iteri (fun i o -> if i > 0 then Buffer.add_char b ' '; (match o with ZOut e -> show_ev b e | ZCall -> Buffer.add_string b "call")) flat;
+      let r = Buffer.contents b in
+      (r, r)
   | "finalize" ->
       (* (finalize FORM hot|cold SHAPE (stims ...)): a cold input is unsubscribed, if at all, after its script *)
       let sh = fshape_of (atom (List.nth body 1) = "hot") (List.nth body 2) in
@@ -932,6 +945,7 @@ let oracle (kind : string) (body : sexp list) (impl : string) : string option =
       let t = (match parse ("(" ^ impl ^ ")") with List l -> List.map ev_of l | _ -> []) in
       if wf t then Some "ok" else Some "reject:C01 a notification after the terminal, or a second terminal"
   | "finalize" when atom (List.nth body 1) = "twice" -> None
+  | "finalize" when atom (List.nth body 1) = "iter" -> None
   | "finalize" ->
       if String.length impl >= 5 && String.sub impl 0 5 = "PANIC" then Some "reject:panic" else
       let sh = fshape_of (atom (List.nth body 1) = "hot") (List.nth body 2) in
